@@ -119,6 +119,12 @@ func seamUniverse(thorough bool) []c13.Tup {
 		c13.Tup{Obj: "doc:1", Rel: "r1", User: "user:a", Cond: cA, Ctx: map[string]any{"x": 1.0}},  // shadows universe[0] (unconditioned)
 		c13.Tup{Obj: "doc:1", Rel: "r1", User: "group:1#member", Cond: cB},                         // shadows universe[2]
 		c13.Tup{Obj: "doc:1", Rel: "r1", User: "user:*", Cond: cA, Ctx: map[string]any{"x": 20.0}}, // shadows universe[1]: same condition, other context
+		// every component once more with a value that has the battery's value as a PREFIX (a comparison by
+		// prefix instead of equality, on either side of the seam, must show)
+		c13.Tup{Obj: "docs:1", Rel: "r1", User: "user:a"},  // object type "docs" vs "doc"
+		c13.Tup{Obj: "doc:1", Rel: "r10", User: "user:a"},  // relation "r10" vs "r1"
+		c13.Tup{Obj: "doc:1", Rel: "r1", User: "user:ab"},  // user id "ab" vs "a"
+		c13.Tup{Obj: "doc:1", Rel: "r1", User: "users:a"},  // user type "users" vs "user"
 	)
 	if thorough {
 		u = append(u,
